@@ -24,7 +24,11 @@ import (
 	"strings"
 	"time"
 
+	"github.com/AliceO2Group/Control/common/controlmode"
 	"github.com/AliceO2Group/Control/core/task"
+	"github.com/AliceO2Group/Control/core/task/channel"
+	"github.com/AliceO2Group/Control/core/task/taskclass"
+	"gopkg.in/yaml.v3"
 	"github.com/AliceO2Group/Control/core/task/constraint"
 	"github.com/AliceO2Group/Control/core/task/taskclass/port"
 	mesos "github.com/mesos/mesos-go/api/v1/lib"
@@ -84,6 +88,10 @@ type simSpec struct {
 	// roles of both trees that carry the same class key load ONE class (state shared between
 	// calls would show in this round). The harness runs the prelude as the spec before this one.
 	Prelude *simIn `json:"prelude,omitempty"`
+	// Reload: the task roles of this tree that carry a class key load a NEW VERSION of the class
+	// the prelude loaded under the same identifier: the template files are rewritten and the
+	// workflow is loaded (RefreshClasses -> UpdateClass) after the prelude's round
+	Reload bool `json:"reload,omitempty"`
 	// derived from Tree by renameSpec (names unique in the run); not part of the replay input
 	Wf      string            `json:"wf,omitempty"`
 	Yaml    string            `json:"yaml,omitempty"`
@@ -98,6 +106,7 @@ type simIn struct {
 	Agents []agentSpec `json:"agents,omitempty"`
 	Role   string      `json:"role,omitempty"` // desc cases: the task role this case is about
 	Prelude *simIn     `json:"prelude,omitempty"`
+	Reload  bool       `json:"reload,omitempty"`
 }
 
 // what the child reports for one spec
@@ -266,6 +275,13 @@ type pureIn struct {
 	WMem    int64       `json:"wmem,omitempty"`
 	Static  [][2]uint64 `json:"static,omitempty"`
 	NChans  int         `json:"nchans,omitempty"`
+	CacheOps []cacheOp  `json:"cacheOps,omitempty"`
+}
+
+// one Classes.UpdateClass call: the class identifier (index) and the template that is (re)loaded
+type cacheOp struct {
+	Key   int       `json:"key"`
+	Class classSpec `json:"class"`
 }
 
 func toConstraints(l []cst) constraint.Constraints {
@@ -411,6 +427,59 @@ func caseRangeOp(in pureIn) (c gen.Case) {
 	}()
 	return gen.Case{Term: fmt.Sprintf("CRangeOp %d %s %d %d %s (%s, %s)", in.Op, rangesTerm(in.Rs), in.Lo, in.Hi,
 		rangesTerm(in.Rs2), num, rangesTerm(rs)), Kind: "rangeop", Input: in, Obs: map[string]interface{}{"num": num, "rs": rs}}
+}
+
+// caseCache probes the real class cache: a history of UpdateClass calls with templates parsed from
+// YAML as the loader does, then GetClass for every identifier written and one that never was.
+func caseCache(in pureIn) gen.Case {
+	classes := taskclass.NewClasses()
+	keyOf := func(k int) string { return fmt.Sprintf("local/repo/tasks/k%d@local", k) }
+	var ops []string
+	written := map[int]bool{}
+	var keys []int
+	for _, op := range in.CacheOps {
+		spec := op.Class
+		spec.Name = fmt.Sprintf("k%d", op.Key)
+		cl := &taskclass.Class{}
+		if err := yaml.Unmarshal([]byte(classYAML(spec)), cl); err != nil {
+			return gen.Case{Term: "CParse [] (Some []) None", Kind: "sim-error", Input: in, Obs: "template does not parse: " + err.Error()}
+		}
+		cl.Identifier.RepoIdentifier, cl.Identifier.Hash = "local/repo", "local"
+		classes.UpdateClass(keyOf(op.Key), cl)
+		ops = append(ops, fmt.Sprintf("(%d, %s)", op.Key, rawClassTerm(spec)))
+		if !written[op.Key] {
+			written[op.Key] = true
+			keys = append(keys, op.Key)
+		}
+	}
+	keys = append(keys, 99) // never written
+	var obs []string
+	var obsJ []interface{}
+	for _, k := range keys {
+		c, ok := classes.GetClass(keyOf(k))
+		if !ok || c == nil {
+			obs = append(obs, fmt.Sprintf("(%d, None)", k))
+			obsJ = append(obsJ, map[string]interface{}{"key": k, "found": false})
+			continue
+		}
+		var cpu, mem int64
+		if c.Wants.Cpu != nil {
+			cpu = toMilli(*c.Wants.Cpu)
+		}
+		if c.Wants.Memory != nil {
+			mem = toMilli(*c.Wants.Memory)
+		}
+		var bind []chn
+		for _, b := range c.Bind {
+			bind = append(bind, chn{Name: b.Name, Tcp: b.Addressing != channel.IPC})
+		}
+		cts := fromConstraints(c.Constraints)
+		static := fromPortRanges(c.Wants.Ports)
+		ctl := c.Control.Mode != controlmode.BASIC && c.Control.Mode != controlmode.HOOK
+		obs = append(obs, fmt.Sprintf("(%d, Some (mkClass %s %d %d %s %s %s))", k, cstsTerm(cts), cpu, mem, rangesTerm(static), chansTerm(bind), gen.Bool(ctl)))
+		obsJ = append(obsJ, map[string]interface{}{"key": k, "cts": cts, "cpu": cpu, "mem": mem, "static": static, "bind": bind, "controllable": ctl})
+	}
+	return gen.Case{Term: fmt.Sprintf("CCache %s %s", gen.List(ops), gen.List(obs)), Kind: "classcache", Input: in, Obs: obsJ}
 }
 
 func milli(v int64) float64 { return float64(v) / 1000.0 }
@@ -719,7 +788,7 @@ func main() {
 		}
 		for i, raw := range ins {
 			switch kinds[i] {
-			case "satisfy", "mergeparent", "parse", "rangeop", "ressat":
+			case "satisfy", "mergeparent", "parse", "rangeop", "ressat", "classcache":
 				var in pureIn
 				if err := json.Unmarshal(raw, &in); err != nil {
 					panic(err)
@@ -748,7 +817,7 @@ func main() {
 		nDesc := o.N / 12
 		nNoDesc := o.N / 120
 		nShared := o.N / 100
-		nPure := o.N - nRound - nDesc - nNoDesc - 4*nShared
+		nPure := o.N - nRound - nDesc - nNoDesc - 7*nShared
 		for i := 0; i < nPure; i++ {
 			k, in := g.pure(i)
 			items = append(items, item{kind: k, pure: &in})
@@ -761,6 +830,10 @@ func main() {
 			addSim("desc", g.sharedSpec("desc", false))
 			addSim("round", g.sharedSpec("round", false))
 			addSim("round", g.sharedSpec("round", true)) // two rounds on one core
+			addSim("round", g.reloadSpec("round"))       // ... with the template reloaded in between
+			if i%2 == 0 {
+				addSim("desc", g.reloadSpec("desc"))
+			}
 		}
 		for i := 0; i < nRound; i++ {
 			sp := g.roundSpec(i)
@@ -784,7 +857,7 @@ func main() {
 	ins := make([]simIn, len(specs))
 	for i := range specs {
 		var cp simIn
-		b, _ := json.Marshal(simIn{Mode: specs[i].Mode, Tree: specs[i].Tree, Agents: specs[i].Agents, Prelude: specs[i].Prelude})
+		b, _ := json.Marshal(simIn{Mode: specs[i].Mode, Tree: specs[i].Tree, Agents: specs[i].Agents, Prelude: specs[i].Prelude, Reload: specs[i].Reload})
 		json.Unmarshal(b, &cp)
 		blankNames(cp.Tree)
 		if cp.Prelude != nil {
@@ -818,6 +891,8 @@ func main() {
 				cases = append(cases, caseRangeOp(*it.pure))
 			case "ressat":
 				cases = append(cases, caseResSat(*it.pure))
+			case "classcache":
+				cases = append(cases, caseCache(*it.pure))
 			}
 			continue
 		}
